@@ -39,6 +39,7 @@ KNOWN_BIG_PRIMES = [2 ** 89 - 1, 2 ** 107 - 1, 2 ** 127 - 1, 2 ** 521 - 1, 2 ** 
 def check_is_prime(ctx, n, want, enum=False, why="range"):
     ctx.ev()
     case = {"fn": "is_prime", "n": n}
+    ctx.case_sample(case)
     try:
         got = NT.is_prime(n)
     except Exception as e:
@@ -79,6 +80,7 @@ def check_next_prime(ctx, n, want, enum=False):
 def check_factorization(ctx, n, want, enum=False):
     ctx.ev()
     case = {"fn": "factorization", "n": n}
+    ctx.case_sample(case)
     try:
         got = NT.factorization(n)
     except Exception as e:
